@@ -113,6 +113,19 @@ def run(ctx, args):
                     edit(rng, r, [])
                 trees.append(("document" if r is d.root else "detached", r))
             keep.append(loose)
+            if i < 4:
+                # whatever the seed: trees without a Document -- a deep clone, and a detached subtree with descendants
+                cl = d.root.clone(deep=True)
+                keep.append(cl)
+                trees.append(("clone", cl))
+                d2 = Document(c06.FIXED_DOCS[i])
+                keep.append(d2)
+                with altered_default_filters():
+                    inner = [x for x in d2.root.iterate_descendants() if isinstance(x, TagNode) and len(x) > 0]
+                if inner:
+                    sub = inner[0].detach()
+                    keep.append(sub)
+                    trees.append(("detached", sub))
 
         preamble, terms, meta = [], [], []
         for ti, (kind, root) in enumerate(trees):
